@@ -19,8 +19,10 @@ impl Permissioner {
                 return Ok(());
             }
 
-            if let Some(topic_permissions) =
-                stream_permissions.topics.as_ref().unwrap().get(&topic_id)
+            if let Some(topic_permissions) = stream_permissions
+                .topics
+                .as_ref()
+                .and_then(|topics| topics.get(&topic_id))
             {
                 if topic_permissions.manage_topic || topic_permissions.read_topic {
                     return Ok(());
@@ -48,8 +50,10 @@ impl Permissioner {
                 return Ok(());
             }
 
-            if let Some(topic_permissions) =
-                stream_permissions.topics.as_ref().unwrap().get(&stream_id)
+            if let Some(topic_permissions) = stream_permissions
+                .topics
+                .as_ref()
+                .and_then(|topics| topics.get(&stream_id))
             {
                 if topic_permissions.manage_topic || topic_permissions.read_topic {
                     return Ok(());
@@ -117,8 +121,10 @@ impl Permissioner {
                 return Ok(());
             }
 
-            if let Some(topic_permissions) =
-                stream_permissions.topics.as_ref().unwrap().get(&topic_id)
+            if let Some(topic_permissions) = stream_permissions
+                .topics
+                .as_ref()
+                .and_then(|topics| topics.get(&topic_id))
             {
                 if topic_permissions.manage_topic {
                     return Ok(());
